@@ -4270,6 +4270,8 @@ def const_name(tu, e):
 
 def check_pipe_protocol(ctx, tu):
     R = 'R-C01-6e'
+    ctx.describe('R-C01-6h', 'pipe: the access to a slot item (writer: store, reader: copy) is separated by a compiler / memory barrier '
+                             'from the store of the slot flag that hands the slot to the other side')
     ctx.describe(R, 'pipe slot protocol: a reader touches m_Buffer[i] only after its CAS(m_Flags[i]: CAN_READ -> INVALID) succeeded and '
                     'then stores CAN_WRITE; the writer touches m_Buffer[i] only after observing CAN_WRITE, then stores CAN_READ, then a '
                     'compiler/memory barrier, then publishes the write index')
@@ -4440,6 +4442,7 @@ def check_pipe_protocol(ctx, tu):
         file = tu.fn_file(f)
         key = lambda d: '%s|%s|LockLessMultiReadPipe::%s|%s' % (R, file, name, d)
         probs = set()
+        probs6h = set()
         und = set()
         for cid, hf in cas_bad.items():
             if g.where(cid) is not None:
@@ -4514,7 +4517,7 @@ def check_pipe_protocol(ctx, tu):
                     return outs or [st]
             if k == 'GCCAsmStmt' or (k == 'CallExpr' and tu.sd(n).get('q', '').split('::')[-1] in
                                      ('atomic_thread_fence', '__sync_synchronize', '_ReadWriteBarrier')):
-                return [(own, pend, 3 if ph == 2 else ph)]
+                return [(own, pend, 3 if ph == 2 else 1.5 if ph == 1 else ph)]   # 1.5: barrier after the slot's data access
             if k == 'ArraySubscriptExpr':
                 idx = midx(n, 'm_Buffer')
                 if idx is not None:
@@ -4525,7 +4528,7 @@ def check_pipe_protocol(ctx, tu):
                                       'FLAG_CAN_WRITE was not observed')))
                     elif ph >= 2:
                         probs.add(('buffer-after-release', 'm_Buffer[%s] is accessed after the slot flag was handed on' % path_str(idx)))
-                    return [(own, pend, max(ph, 1))]
+                    return [(own, pend, 1 if ph < 2 else ph)]
                 return [st]
             tgt = None
             if k == 'BinaryOperator' and n.get('opcode') == '=':
@@ -4548,6 +4551,19 @@ def check_pipe_protocol(ctx, tu):
                         probs.add(('flag-before-data', 'the slot flag is handed on (%s) before m_Buffer[%s] has been %s: the next owner can %s'
                                    % (want, path_str(fidx), 'written' if producer else 'read',
                                       'read a stale partition' if producer else 'overwrite the partition before it is read')))
+                    elif ph == 1:
+                        probs6h.add(('item-store-not-ordered-before-flag' if producer else 'item-copy-not-ordered-before-flag',
+                                     ('the item is stored into m_Buffer[%s] with ordinary stores and the very next thing is the (volatile) '
+                                      'store of %s into m_Flags[%s], with no compiler / memory barrier in between: the compiler may sink '
+                                      '(part of) the item store below the flag store, and readers claim a slot by the flag alone (they probe '
+                                      'slots of [readCount, writeIndex) that may already be re-written for a later round), so a reader that '
+                                      'wins the CAS copies a half-written or stale item: a partition is lost or run twice'
+                                      if producer else
+                                      'the item is copied out of m_Buffer[%s] with ordinary loads and the very next thing is the (volatile) '
+                                      'store of %s into m_Flags[%s], with no compiler / memory barrier in between: the compiler may sink the '
+                                      'loads below the flag store, the writer then re-fills the slot while it is still being copied: the '
+                                      'reader gets a torn item, a partition is lost or run twice')
+                                     % (path_str(fidx), want, path_str(fidx))))
                     return [(own, pend, max(ph, 2))]
                 ap = mpath(tgt)
                 if ap is not None and ap == ('this', 'm_WriteIndex'):
@@ -4623,6 +4639,10 @@ def check_pipe_protocol(ctx, tu):
             ctx.undecided(R, inst, u, loc)
         for k, t in ([] if und else sorted(probs)):
             ctx.violation(R, inst, t, loc, key=key(k))
+        for k, t in ([] if und else sorted(probs6h)):
+            ctx.violation('R-C01-6h', inst, t, loc, key='R-C01-6h|%s|LockLessMultiReadPipe::%s|%s' % (file, name, k))
+        if not und and not probs6h and not probs:
+            ctx.ok('R-C01-6h', inst, 'a barrier separates the access to the slot item from the flag store that hands the slot on', loc)
         if not probs and not und:
             ctx.ok(R, inst, 'claim -> buffer access -> flag hand-over%s on every successful path; nothing touched on failing paths'
                    % (' -> barrier -> write index' if name != 'ReaderTryReadBack' else ''), loc)
